@@ -12,12 +12,16 @@
     stream and, per object, relative ID, descriptor stream and content; so a signature made on one
     image is good on every image presenting the same view (reloaded, relocated, IDs shifted as a
     group, unprotected header fields changed).
+  * `C06_del_elsewhere`: deleting objects of *other* groups (with or without zeroing and
+    compaction) leaves that view alone as well — in particular the group's minimum object ID,
+    hence every member's relative ID, is recomputed to the same value.
   * `C06_add_elsewhere`: adding an object outside a group (in particular the signature objects
     `Sign` itself appends, and co-signatures) leaves the header stream, the group's members and
     each member's descriptor stream and content as they were — the view the signature covers.
 -/
 import SifVerif.Proofs.Complete
 import SifVerif.Proofs.Readback
+import SifVerif.Proofs.Elsewhere
 namespace Sif.C06
 
 variable (H : HashAlg → Bytes → Bytes) (ph : Bytes → Option Bytes) (fpOf : Nat → Bytes)
@@ -140,5 +144,46 @@ theorem C06_add_elsewhere (s : Img) (W : WF s) (P : Placed s) (R : Ranges s) (di
       rw [minLookup_minLower]
       have : ¬ d.gid = x.gid := by rw [hgid]; exact fun e => hg e.symm
       simp [this]
+
+/-- **deleting objects outside a group leaves the group's signed view alone**: a member `x` whose
+    group loses no object keeps its slot and descriptor, the header stream, its descriptor stream
+    (the group's minimum ID is recomputed to the same value) and its content — whatever the
+    selector, with or without zeroing and compaction -/
+theorem C06_del_elsewhere (s : Img) (W : WF s) (P : Placed s) (R : Ranges s) (sel : Sel) (zero compact : Bool)
+    (t : TOpt) (now : Int) (hok : (step sha ph s (.del sel zero compact t) now).2 = .ok)
+    (x : RawDesc) (i : Nat) (hx : s.rds[i]? = some x) (hu : x.used = true)
+    (hg : ∀ d ∈ s.rds, hit ph sel d = true → d.gid ≠ x.gid) :
+    (step sha ph s (.del sel zero compact t) now).1.rds[i]? = some x ∧
+    hdrStream (step sha ph s (.del sel zero compact t) now).1.h = hdrStream s.h ∧
+    descStream (step sha ph s (.del sel zero compact t) now).1.minIDs x = descStream s.minIDs x ∧
+    objContent (step sha ph s (.del sel zero compact t) now).1.st x = objContent s.st x := by
+  have hio : (step sha ph s (.del sel zero compact t) now).2 ≠ .err .io := by rw [hok]; simp
+  have hmem : x ∈ s.rds := List.mem_of_getElem? hx
+  have hnot : hit ph sel x = false := by
+    cases hh : hit ph sel x with
+    | false => rfl
+    | true => exact absurd rfl (hg x hmem hh)
+  have hcont := (step_frame sha ph s W P R (.del sel zero compact t) now i x hx hu
+    (fun _ => by simpa [survives] using hnot) hio).1
+  obtain ⟨st', _, hs', hres⟩ := step_store sha ph s (.del sel zero compact t) now (by simp) hio
+  rw [hs'] at hcont ⊢
+  simp only [plan] at hres hcont ⊢
+  rcases deleteObjectsPlan_cases ph s sel zero compact t now with ⟨calls, e, h⟩ | ⟨_, _, h⟩
+  · rw [h] at hres; rw [hok] at hres; cases hres
+  · rw [h]
+    have hd := hdrAfterDelete_doff s.h (s.rds.filter (hit ph sel))
+    refine ⟨?_, ?_, ?_, hcont⟩
+    · have : (deleteResult ph s sel compact (resolveTime s t now)).rds =
+          s.rds.map (fun d => if hit ph sel d then zeroDesc else d) := by
+        cases compact <;> simp [deleteResult, deleteFinish]
+      simp only [this, List.getElem?_map, hx, Option.map_some, hnot, Bool.false_eq_true, ↓reduceIte]
+    · cases compact <;>
+        simp [hdrStream, deleteResult, deleteFinish, hd.2.2.2.2.2.1, hd.2.2.2.2.2.2.1, hd.2.2.2.2.2.2.2.1,
+          hd.2.2.2.2.2.2.2.2.1]
+    · have hm : (deleteResult ph s sel compact (resolveTime s t now)).minIDs =
+          populateMinIDs (s.rds.map (fun d => if hit ph sel d then zeroDesc else d)) := by
+        cases compact <;> simp [deleteResult, deleteFinish]
+      simp only [hm, descStream, relID]
+      rw [minLookup_after_kill s.minIDs s.rds (hit ph sel) x.gid W.coh ⟨x, hmem, hu, rfl⟩ hg]
 
 end Sif.C06
